@@ -202,7 +202,8 @@ class MolQueryReader(object):
             symbol = tree[0][0].upper()+tree[0][1:]
             try:
                 atom = Chem.Atom(symbol)
-                atom.SetIsAromatic(True)
+                atom = rdqueries.AtomNumEqualsQueryAtom(atom.GetAtomicNum())
+                atom.ExpandQuery(rdqueries.IsAromaticQueryAtom())
             except RuntimeError:
                 msg = 'Element aromatic ' + symbol + ' not found'
                 raise RINGReaderError(msg)
